@@ -56,9 +56,13 @@ K        == Len(Images)
 ImageSet == {Images[i] : i \in 1..K}
 Files    == {"summary", "vol", "led", "trl"} \cup ImageSet
 NoVer    == -1
-Absent   == [st |-> "absent", ver |-> NoVer]
-Torn     == [st |-> "torn", ver |-> NoVer]
-FullOf(v) == [st |-> "full", ver |-> v]
+\* an index cell; `asked` = it exists because the user asked for it (create_cache, the CLI, or the environment planted it).  Cells the
+\* library creates on its own can only enter through the trace specification's resynchronisation (Trace_Alos2!Resync): whatever is later
+\* served from such a cell is the library's responsibility, so it never excuses a stale tree.
+Absent   == [st |-> "absent", ver |-> NoVer, asked |-> TRUE]
+Torn     == [st |-> "torn", ver |-> NoVer, asked |-> TRUE]
+FullOf(v) == [st |-> "full", ver |-> v, asked |-> TRUE]
+Unasked(v) == [st |-> "full", ver |-> v, asked |-> FALSE]
 NoTree   == [live |-> FALSE, loc |-> "-", ver |-> NoVer, rpc |-> 0, src |-> [m \in ImageSet |-> "none"],
              cver |-> [m \in ImageSet |-> NoVer], copyOf |-> 0, loaded |-> {}, mutated |-> {}]
 Quiet    == [op |-> "init"]
@@ -85,6 +89,10 @@ ServedVer(l, m, uc) ==
     CASE Src(l, m, uc) = "local" -> local[l][m].ver
       [] Src(l, m, uc) = "adjacent" -> adjacent[l][m].ver
       [] OTHER -> store[l].ver
+ServedAsked(l, m, uc) ==
+    CASE Src(l, m, uc) = "local" -> local[l][m].asked
+      [] Src(l, m, uc) = "adjacent" -> adjacent[l][m].asked
+      [] OTHER -> TRUE
 
 \* ------------------------------------------------------------------ open_alos2: the walk over the files
 \* -> first file that makes the call fail, or "none".  The trailer is never touched.
@@ -113,7 +121,8 @@ Written(l, uc, cc) ==
     ELSE {Images[i] : i \in {j \in 1..K : j < FirstImgFail(l, uc, cc) /\ Src(l, Images[j], uc) = "parse"}}
 \* a tree served (partly) from an index of ANOTHER version of the product, or masking a damaged image file, is
 \* outside what the properties promise: recorded, not judged
-Judged(l, uc) == \A m \in ImageSet : ServedVer(l, m, uc) = store[l].ver /\ (Src(l, m, uc) # "parse" => store[l].dmg[m] = "ok")
+Judged(l, uc) == \A m \in ImageSet : /\ (ServedVer(l, m, uc) = store[l].ver \/ ~ServedAsked(l, m, uc))
+                                      /\ (Src(l, m, uc) # "parse" => store[l].dmg[m] = "ok")
 
 Open(l, uc, cc, r, t) ==
     /\ ops < MaxOps
@@ -214,6 +223,14 @@ CellSet(l, m, which, c) ==
     /\ last' = [op |-> IF c.st = "absent" THEN "delete" ELSE "tear", loc |-> l, img |-> m, cell |-> which]
     /\ ops' = ops + 1
     /\ UNCHANGED <<store, cacheOK, tree>>
+\* the user clears the cache of one product (its hashed directory) or the whole cache directory (rm -rf ~/.cache/xarray-ceos-alos2,
+\* or all of $XDG_CACHE_HOME), in the middle of a session
+Purge(scope) ==
+    /\ EnvCaches /\ ops < MaxOps /\ cacheOK
+    /\ local' = [l \in Locs |-> IF scope = "all" \/ scope = l THEN [m \in ImageSet |-> Absent] ELSE local[l]]
+    /\ last' = [op |-> "purge", scope |-> scope]
+    /\ ops' = ops + 1
+    /\ UNCHANGED <<store, adjacent, cacheOK, tree>>
 CacheDir(ok) ==
     /\ EnvCacheDir /\ ops < MaxOps /\ cacheOK # ok
     /\ cacheOK' = ok
@@ -229,6 +246,7 @@ Next == \/ \E l \in Locs, uc, cc \in BOOLEAN, r \in Rpcs, t \in Slots : Open(l, 
         \/ \E l \in Locs : (\E v \in Versions : Redeliver(l, v)) \/ Restore(l) \/ \E f \in Files, h \in {"missing", "cut"} : Damage(l, f, h)
         \/ \E l \in Locs, m \in ImageSet, w \in {"local", "adjacent"}, c \in {Absent, Torn} : CellSet(l, m, w, c)
         \/ \E ok \in BOOLEAN : CacheDir(ok)
+        \/ \E sc \in Locs \cup {"all"} : Purge(sc)
 
 Spec == Init /\ [][Next]_vars
 
@@ -259,9 +277,10 @@ RepairAfterCreate == last.op = "open" /\ last.cc /\ last.outcome = "tree" =>
 WritesOnlyWhenAsked == [][\A l \in Locs, m \in ImageSet :
        /\ (adjacent'[l][m] # adjacent[l][m] => last'.op \in {"cli", "delete", "tear"})
        /\ (local'[l][m] # local[l][m] =>
-              (last'.op \in {"cli", "delete", "tear"}) \/ (last'.op = "open" /\ last'.cc /\ local'[l][m] = FullOf(store[l].ver)))]_vars
+              (last'.op \in {"cli", "delete", "tear", "purge"}) \/ (last'.op = "open" /\ last'.cc /\ local'[l][m] = FullOf(store[l].ver)))]_vars
 \* C10 / C16 / C13: a judged open returns the current version of everything, whatever happened before
-JudgedIsCurrent == last.op = "open" /\ last.outcome = "tree" /\ last.judged => \A m \in ImageSet : last.cver[m] = last.ver
+JudgedIsCurrent == last.op = "open" /\ last.outcome = "tree" /\ last.judged /\ (\A l \in Locs, m \in ImageSet : local[l][m].asked /\ adjacent[l][m].asked)
+                       => \A m \in ImageSet : last.cver[m] = last.ver
 \* a stale index can only be served while no refresh happened since the delivery: once judged after refresh it stays
 \* so until the next delivery (checked as: an unjudged tree needs a cell of another version or a damaged image)
 UnjudgedHasCause == last.op = "open" /\ last.outcome = "tree" /\ ~last.judged =>
